@@ -138,6 +138,16 @@ class Mk:
           fdl.add_tag(cfg, arg, stubmod.TAGS[t])
       for arg in nd.get('untag', []):
         fdl.clear_tags(cfg, arg)   # e.g. a tag that came from an annotation
+      if nd.get('swap') and nd['fn'] in ('n0', 'n6'):
+        # an edited configuration: its callable was swapped for one that lacks a
+        # parameter (values dropped; tags of that parameter stay behind)
+        from fiddle._src import mutate_buildable
+        try:
+          mutate_buildable.update_callable(
+              cfg, self.fns['n0b' if nd['fn'] == 'n0' else 'n0'],
+              drop_invalid_args=True)
+        except NotImplementedError:
+          pass    # (positional arguments: not supported by update_callable)
       return cfg
     raise ValueError(f'bad descriptor {d}')
 
@@ -180,7 +190,7 @@ def gen_value(rng, big):
     if r < 0.855:
       return {'enum2': rng.choice([['Level', 'LOW'], ['Level', 'HIGH'], ['Mode', 'FAST'],
                                    ['Mode', 'SLOW'], ['Perm', 'R'], ['Perm', 'W']])}
-    if r < 0.865:
+    if r < 0.875:
       return {'sub': rng.choice([['MyInt', 7], ['MyStr', 'seven']])}
     if r < 0.885 and not hashable_only:
       # methods: via the defining class (serialisable), inherited through a
@@ -274,6 +284,8 @@ def gen_value(rng, big):
                     'fn': fn, 'args': args, 'kwargs': kwargs, 'tags': tags}}
       if fn == 'n6' and rng.random() < 0.5:
         d['node']['untag'] = rng.sample(['x', 'y'], rng.randint(1, 2))
+      if fn in ('n0', 'n6') and rng.random() < 0.2:
+        d['node']['swap'] = 1
     d['id'] = i
     if not any(k in d for k in ('tuple', 'slice', 'set', 'fset', 'tv')):
       shareable.append(i)
@@ -316,6 +328,8 @@ def gen_case(world, tier, prop):
   crng = world.stream('conc')
   if crng.random() < 0.1:
     case['migrate'] = True
+  if crng.random() < 0.3:
+    case['refused_constants'] = True
   if crng.random() < 0.35:
     # two loads under DIFFERENT policies overlap in two threads
     case['conc'] = {'a': crng.randrange(len(values)), 'b': crng.randrange(len(values)),
@@ -656,6 +670,15 @@ def run(case):
   def bump(d, k, n=1):
     d[k] = d.get(k, 0) + n
 
+  if case.get('refused_constants'):
+    # history: registrations that are REFUSED (plain primitives need none)
+    for sym in ('PRIM_INT', 'PRIM_STR'):
+      try:
+        serialization.register_constant('fsim.stubmod', sym, compare_by_identity=False)
+      except ValueError:
+        bump(faults, 'refused_registration')
+      else:
+        raise AssertionError('harness: registering a primitive was expected to be refused')
   docs = {}
   originals = {}
   real_importlib = serialization.importlib
